@@ -43,7 +43,9 @@ func (k Keeper) AllocateRewards(ctx context.Context, reports []*types.Aggregate,
 		for _, r := range report.Reporters {
 			reporter, found := reportersMap[r.Reporter]
 			if found {
-				reporter.Reports++
+				// a reporter in several of the rewarded aggregates is paid for the power it contributed
+				// to each of them (the total below sums every report's power as well)
+				reporter.Power += r.Power
 			} else {
 				reporter = ReportersReportCount{
 					Power:   r.Power,
